@@ -119,9 +119,10 @@ class Surface:
 
     def quad(self, grid, q):
         """Each triangle is cut into s*s congruent sub-triangles, s chosen so that the
-        sub-triangles are about (smallest cell width / q) wide."""
+        sub-triangles are about (smallest cell width / (q/4)) wide (pieces are not aligned
+        with the cells; a piece that straddles a cell face counts to the upper bounds only)."""
         T = self.tris
-        h = grid.min_width() / q
+        h = grid.min_width() / max(4, q // 4)
         pts, half, mass = [], [], []
         for a, b, c in T:
             L = max(np.linalg.norm(b - a), np.linalg.norm(c - b), np.linalg.norm(a - c))
